@@ -37,7 +37,7 @@ EXPLANATION = (
     "both use the same slack-node definition; (R1.5) the only accumulating writer of LOAD is ConstFlow, reported "
     "mf_from/mf_to are +-MDOTINIT of one column, the ext-grid report divides the slack mass flow by the number of "
     "grids at the node; (R1.6) every constant column subscript uses a constant of the pit namespace it indexes. "
-    "Not decided: the size of the round-off, anything about the nonlinear branch rows.")
+    "(R1.7, shared with C04 R4.7/R4.3) the connectivity search keeps a branch only if its from node was reached and reduce_pit remaps both ends of the kept branches through the same renumbering, so no active branch is attached to a dropped node. Not decided: the size of the round-off, anything about the nonlinear branch rows.")
 ASSUMPTIONS = ["each pressure-controlled node is controlled by exactly one PC branch (count of PC nodes = count of PC branches)",
                "the number of infeed nodes equals the number of fixed-temperature nodes when the thermal matrix is built "
                "(guarded by check_infeed_number in solve_temperature)",
@@ -573,4 +573,14 @@ def _ns_of(e, ns, strict=False):
     return None
 
 
-RULES = [("R1.1", r1_1), ("R1.2", r1_2), ("R1.3", r1_3), ("R1.4", r1_4), ("R1.5", r1_5), ("R1.6", r1_6)]
+def r1_7(run):
+    """the nodal balance is assembled over the reduced pit: a branch that stays active while one of its end nodes is dropped is
+    renumbered onto another node by reduce_pit and draws an unreported flow there.  The connectivity search therefore keeps a
+    branch only if its from node was reached (and by the edges of the search its to node too), and both ends are remapped by the
+    same renumbering (shared with C04 R4.7 / R4.3)"""
+    from .c04 import r4_3, r4_7
+    r4_7(run)
+    r4_3(run)
+
+
+RULES = [("R1.1", r1_1), ("R1.2", r1_2), ("R1.3", r1_3), ("R1.4", r1_4), ("R1.5", r1_5), ("R1.6", r1_6), ("R1.7", r1_7)]
